@@ -1,5 +1,5 @@
 (* C01 - CTAP2 request decoding is faithful to the specification's parameter tables. *)
-From Ctap Require Import Base Schema Wire Typed Procs Inst Tables ProcTables Finite FramingP C11P.
+From Ctap Require Import Base Schema Wire Utf8 Typed Procs Inst Tables ProcTables Finite CborItem WireP SkipP TypedP EntriesP FramingP C11P.
 Local Open Scope string_scope.
 Local Open Scope Z_scope.
 
@@ -34,6 +34,43 @@ Proof.
   rewrite (route_of_spec b Hb), Hr. cbn [run_route]. rewrite Hd. reflexivity.
 Qed.
 
+(* Integer-keyed parameter maps (every ctap2::*::Request, HmacSecretInput, SubcommandParameters): for ANY
+   environment, ANY member list fs, and an entry list in ANY order whose members are pairwise distinct, each
+   encoded as  key || value  where the value's encoding decodes (element decoder, hypothesis idx_entry_ok)
+   to the entry's value: the map decodes to the record holding under each member EXACTLY the value sent
+   under its key, and VNone for every optional member that was not sent.  No value is attributed to another
+   member, altered or dropped.  (Generic in the environment, so it holds for spec_env f for every f.) *)
+Theorem c01_indexed_map_faithful : forall e k name s d fs entries rest,
+  lookup e name = Some (DStruct true s d fs) ->
+  Forall (idx_entry_ok (dec e k) fs) entries ->
+  NoDup (map en_label entries) ->
+  (forall fd, In fd fs -> f_opt fd = false -> In (f_label fd) (map en_label entries)) ->
+  blen entries < 4294967296 ->
+  dec e (S k) (TNamed name) (put_head 5 (blen entries) ++ List.concat (map enc_idx_entry entries) ++ rest)%list
+  = Ok (VRec (map (fun fd => (f_label fd, match sent_value entries fd with Some v => v | None => VNone end)) fs), rest).
+Proof. exact dec_indexed_struct. Qed.
+
+(* Text-keyed nested dictionaries (rp, user, options, extensions, descriptors, parameters): the same, for
+   entries in any order, with any unknown members in between *)
+Theorem c01_text_map_faithful : forall e k name s d fs tes rest,
+  lookup e name = Some (DStruct false s d fs) ->
+  Forall (txt_entry_ok (dec e k) fs) tes ->
+  NoDup (map en_label (known_entries tes)) ->
+  (forall fd, In fd fs -> f_opt fd = false -> In (f_label fd) (map en_label (known_entries tes))) ->
+  blen tes < 4294967296 ->
+  dec e (S k) (TNamed name) (put_head 5 (blen tes) ++ List.concat (map enc_txt_entry tes) ++ rest)%list
+  = Ok (VRec (txt_record fs tes), rest).
+Proof. exact dec_text_struct. Qed.
+
+(* non-vacuity: a LargeBlobs request {3: 0, 1: 7} (keys out of order) satisfies the hypotheses *)
+Example c01_ex_large_blobs :
+  decode (spec_env []) (TNamed "ctap2::large_blobs::Request") [0xA2; 0x03; 0x00; 0x01; 0x07]
+  = Ok (VRec [("get", VSome (VZ 7)); ("set", VNone); ("offset", VZ 0); ("length", VNone);
+              ("pin_uv_auth_param", VNone); ("pin_uv_auth_protocol", VNone)], []).
+Proof. vm_compute. reflexivity. Qed.
+
+Eval vm_compute in "ASSUMPTIONS c01_indexed_map_faithful". Print Assumptions c01_indexed_map_faithful.
+Eval vm_compute in "ASSUMPTIONS c01_text_map_faithful". Print Assumptions c01_text_map_faithful.
 Eval vm_compute in "ASSUMPTIONS c01_generated_conforms". Print Assumptions c01_generated_conforms.
 Eval vm_compute in "ASSUMPTIONS c01_generated_route". Print Assumptions c01_generated_route.
 Eval vm_compute in "ASSUMPTIONS c01_routes". Print Assumptions c01_routes.
